@@ -86,10 +86,9 @@ class FinalFeedback:
         # category and label (and also potentially fields)
         category = (feedback.category or Feedback.CATEGORIES.UNKNOWN).lower()
         if category in self.suppressions:
-            if True in self.suppressions[category]:
-                return
-            else:
-                looking_for = feedback.label.lower()
+            # The whole category, or any label within it (in either case
+            # narrowed down by the suppression's fields, if it has any)
+            for looking_for in (True, feedback.label.lower()):
                 if looking_for in self.suppressions[category]:
                     list_of_fields = self.suppressions[category][looking_for]
                     # Go through each of the sets of fields
